@@ -313,6 +313,7 @@ pub struct Rec {
     pub listing_to_uq: std::collections::HashMap<u64, (u64, Vec<Act>)>,
     pub nontrivial: HashSet<u128>,
     pub visited: u64,
+    pub by_last: BTreeMap<String, u64>,
 }
 
 pub struct M {
@@ -428,6 +429,13 @@ impl Model for M {
             if s.depth >= 2 {
                 rec.nontrivial.insert(s.key);
             }
+            let last = match s.hist.last() {
+                None => "init".to_string(),
+                Some(Act::Add(k)) => kind_key(&m.menu[*k]).map(|x| format!("add-{}", x.0)).unwrap_or("add-body".into()),
+                Some(Act::Concat(_)) => "concat".to_string(),
+                Some(o) => format!("{o:?}"),
+            };
+            *rec.by_last.entry(last).or_default() += 1;
             if m.which == Which::C10 {
                 // two states with identical listing but different used-qubit sets
                 let (_, lh) = canon_key(&s.prog, &Ref::default());
@@ -572,6 +580,9 @@ fn run_model(ctx: &mut Ctx, id: &str, which: Which, name: &str, menu: Vec<Instru
     }
     ctx.outcome(&format!("{name}:states"));
     *ctx.outcomes.get_mut(&format!("{name}:states")).unwrap() = unique;
+    for (k, v) in &r.by_last {
+        *ctx.outcomes.entry(format!("{name}:last={k}")).or_default() += *v;
+    }
     ctx.bound(&format!("{name}"), json!({"actions": nactions, "depth": depth, "unique_states": unique, "transitions": generated, "max_depth_reached": maxd, "completed": done, "dfs_bfs_agree": bfs_unique}));
     if !done {
         ctx.capped = true;
